@@ -360,6 +360,65 @@ def temporaries_leg(c, wd):
         sys.modules.pop(mod.__name__, None)
 
 
+DROPPED_HOST = '''
+def work(items):
+    items = None
+    return tuple(range(50000, 100000))  # TP:leave
+
+
+def go():
+    return len(work(tuple(range(50000))))
+'''
+
+
+def dropped_local_leg(c, wd):
+    """Two different objects never share an id - over the whole life of a DEFERRED snapshot: the function drops a local
+    it was called with (its memory is free for the next object of that size) and returns a new object; the captured
+    return value is that new object, not the entry of the dropped argument. (A second tracepoint fires while the
+    function runs, as in any program with more than one tracepoint. Address reuse is up to the allocator: the history
+    is repeated; the leg can miss a defect, it cannot raise a false alarm.)"""
+    import sys
+    mod, path, marks = R.write_host(wd, DROPPED_HOST)
+    base = path.rsplit('/', 1)[-1]
+    inf = {'fire_count': '-1', 'fire_period': '0'}
+    rg = R.Rig(plugins=[R.role_plugin('rec', {'log'})])
+    try:
+        rg.install([dict(id='t-cap', path=base, line=0, args=dict(inf, stage='method_capture', method_name='work')),
+                    dict(id='t-log', path=base, line=marks['leave'], args=dict(inf, snapshot='no_collect', log_msg='leaving'))])
+        rounds = 12
+        bad = None
+        for _ in range(rounds):
+            res = rg.run(mod.go, only_file=path)
+            if res != ('ok', 50000) or rg.escaped:
+                bad = 'host changed / handler raised: %r %r' % (res, rg.escaped)
+                break
+        snaps = rg.snapshots()
+        if not bad and len(snaps) != rounds:
+            bad = '%d deferred snapshots for %d invocations' % (len(snaps), rounds)
+        wrong = 0
+        for s_ in snaps if not bad else []:
+            items = [v for v in s_.frames[0].variables if v.name == 'items']
+            caps = [w for w in s_.watches if w.source == 'CAPTURE' and w.expression == 'return' and w.result is not None]
+            if len(items) != 1 or len(caps) != 1 or caps[0].result.vid not in s_.var_lookup:
+                bad = 'snapshot without the argument / the captured return value'
+                break
+            ret = s_.var_lookup[caps[0].result.vid]
+            first = s_.var_lookup[ret.children[0].vid].value if ret.children else None
+            if caps[0].result.vid == items[0].vid or first != '50000':
+                wrong += 1
+        if not bad and wrong:
+            bad = ('in %d of %d deferred snapshots the captured return value (a new tuple starting at 50000) is shown as the '
+                   'entry of the argument `items` (the dropped tuple starting at 0): two objects share an id' % (wrong, rounds))
+    finally:
+        rg.close()
+    c.traces_validated += 1
+    c.note_case(key=('dropped-local',), nontrivial=True)
+    if bad:
+        p_ = c.save_replay({'direction': 'C2S', 'kind': 'dropped-local', 'what': bad})
+        c.violation('a local dropped while a deferred snapshot is pending: %s' % bad, p_)
+    sys.modules.pop(mod.__name__, None)
+
+
 def run(c):
     quick = c.tier == 'quick'
     rng = random.Random(c.seed)
@@ -402,6 +461,7 @@ def run(c):
     traces, meta, sk = c05.run_frame_instances(c, fr, wd, 'shared-across-frames')
     c05.validate(c, traces, meta)
     temporaries_leg(c, wd)
+    dropped_local_leg(c, wd)
     closure_leg(c, wd)
 
 
